@@ -710,3 +710,83 @@ pub fn mlpst(which: usize, seed: u64) -> Verdict {
     let lib = catch(|| Ok::<bool, String>(MultilinearPC::check(&vk, &com, &pt, v, &proof)));
     decide(lib, reference, &format!("multilinear PST, replaced component: {}", names[which.min(9)]))
 }
+
+/// streaming KZG verifier: `verify` against g(f(tau) - v) = pi (tau - alpha) and `verify_multi_points` against
+/// g(sum_i eta^i f_i(tau) - I(tau)) = pi Z(tau), I = sum_i eta^i (Lagrange interpolation of the claimed evaluations),
+/// Z = vanishing polynomial of the points; tau and g re-derived from the setup's RNG stream
+pub fn streaming(which: usize, multi: bool, seed: u64) -> Verdict {
+    use crate::engine::explore::{assume_ne, sym_nonzero};
+    use ark_ec::pairing::Pairing;
+    use ark_ff::UniformRand;
+    use ark_poly_commit::streaming_kzg::{CommitterKey, EvaluationProof, VerifierKey};
+    use ark_std::rand::{rngs::StdRng, SeedableRng};
+    let s = seed ^ crate::engine::explore::replay_salt();
+    let mut r = StdRng::seed_from_u64(s + 77);
+    let tau = SF::rand(&mut r);
+    let g = <ToyPairing as Pairing>::G1::rand(&mut r).0;
+    let m = if multi { 2 } else { 1 };
+    let k = if multi { 2 } else { 1 };
+    let ck = CommitterKey::<ToyPairing>::new(4, m, &mut StdRng::seed_from_u64(s + 77));
+    let vk = VerifierKey::from(&ck);
+    let horner = |c: &[SF], z: SF| c.iter().rev().fold(SF::zero(), |a, x| a * z + *x);
+    let mut polys: Vec<Vec<SF>> = (0..k).map(|i| (0..2 + i).map(|j| sym(&format!("f{}_{}", i, j))).collect()).collect();
+    let mut pts: Vec<SF> = (0..m).map(|j| sym(&format!("x{}", j))).collect();
+    let eta = sym_nonzero("eta");
+    let x = sym("x");
+    let names = ["honest", "value", "point", "proof", "commitment (to the constant polynomial x)"];
+    let (lib, reference) = if !multi {
+        let (mut v, mut pf) = ck.open(&polys[0], &pts[0]);
+        match which {
+            1 => v = x,
+            2 => pts[0] = x,
+            3 => pf = EvaluationProof(TA(x)),
+            4 => polys[0] = vec![x],
+            _ => {}
+        }
+        let c = ck.commit(&polys[0]);
+        let lib = catch(|| Ok::<bool, String>(vk.verify(&c, &pts[0], &v, &pf).is_ok()));
+        (lib, g * (horner(&polys[0], tau) - v) == pf.0 .0 * (tau - pts[0]))
+    } else {
+        // documented precondition: distinct points (the verifier inverts their differences)
+        let refs: Vec<&Vec<SF>> = polys.iter().collect();
+        let mut pf = ck.batch_open_multi_points(&refs[..], &pts, &eta);
+        let mut evals: Vec<Vec<SF>> = polys.iter().map(|p| pts.iter().map(|z| horner(p, *z)).collect()).collect();
+        match which {
+            1 => evals[k - 1][m - 1] = x,
+            2 => pts[m - 1] = x,
+            3 => pf = EvaluationProof(TA(x)),
+            4 => polys[k - 1] = vec![x],
+            _ => {}
+        }
+        for i in 0..m {
+            for j in (i + 1)..m {
+                if !assume_ne(pts[i], pts[j], "evaluation points not distinct") {
+                    return Verdict::Hold;
+                }
+            }
+        }
+        let comms = ck.batch_commit(&polys);
+        let lib = catch(|| Ok::<bool, String>(vk.verify_multi_points(&comms, &pts, &evals, &pf, &eta).is_ok()));
+        let mut lhs = SF::zero();
+        let mut e = SF::one();
+        for i in 0..k {
+            let mut interp = SF::zero();
+            for j in 0..m {
+                let mut num = SF::one();
+                let mut den = SF::one();
+                for l in 0..m {
+                    if l != j {
+                        num *= tau - pts[l];
+                        den *= pts[j] - pts[l];
+                    }
+                }
+                interp += evals[i][j] * num * den.inverse().unwrap_or(SF::zero());
+            }
+            lhs += e * (horner(&polys[i], tau) - interp);
+            e *= eta;
+        }
+        let z: SF = pts.iter().fold(SF::one(), |a, p| a * (tau - *p));
+        (lib, g * lhs == pf.0 .0 * z)
+    };
+    decide(lib, reference, &format!("streaming {}, replaced component: {}", if multi { "verify_multi_points" } else { "verify" }, names[which.min(4)]))
+}
